@@ -1031,7 +1031,7 @@ func (c *compiler) compileFunc(e *Func) error {
 				[3]any{c.funcMatch, len(e.Args), e.Name},
 				e.Args,
 				true,
-				-1,
+				0,
 			)
 		default:
 			return c.compileCall(e.Name, e.Args)
@@ -1042,7 +1042,7 @@ func (c *compiler) compileFunc(e *Func) error {
 			[3]any{fn.callback, len(e.Args), e.Name},
 			e.Args,
 			true,
-			-1,
+			0,
 		); err != nil {
 			return err
 		}
@@ -1596,10 +1596,10 @@ func (c *compiler) compileCall(name string, args []*Query) error {
 	switch name {
 	case "_index", "_slice":
 		indexing = 1
-	case "getpath":
-		indexing = 0
-	default:
+	case "path":
 		indexing = -1
+	default:
+		indexing = 0
 	}
 	if err := c.compileCallInternal(
 		[3]any{fn.callback, len(args), name},
@@ -1628,7 +1628,14 @@ func (c *compiler) compileCallInternal(
 	}
 	v := c.newVariable()
 	c.append(&code{op: opstore, v: v})
+	// the arguments from indexing on are evaluated as values, not as paths
+	protect := false
 	if indexing >= 0 {
+		for _, arg := range args[indexing:] {
+			protect = protect || !arg.isValue()
+		}
+	}
+	if protect {
 		c.append(&code{op: opexpbegin})
 	}
 	for i := len(args) - 1; i >= 0; i-- {
@@ -1672,7 +1679,7 @@ func (c *compiler) compileCallInternal(
 		} else {
 			c.append(&code{op: oppushpc, v: pc})
 		}
-		if i == indexing {
+		if i == indexing && protect {
 			if c.codes[len(c.codes)-2].op == opexpbegin {
 				c.codes[len(c.codes)-2] = c.codes[len(c.codes)-1]
 				c.codes = c.codes[:len(c.codes)-1]
